@@ -13,6 +13,27 @@ CLAIMS = {
         note="Trusted: CPython, z3, the proxy arithmetic (differentially self-tested), the repository's definition tables as the reference "
              "for order/width/type (pinned separately by C10). Float scaling is an uninterpreted (raw term, constant) pair; NUL text units assumed away.",
         ref="DESIGN.md section 5 C03", technique=TECH),
+    "C01": dict(
+        text="Bounded symbolic execution of the real RTCMReader (read/_parse_rtcm3/_parse_ubx/_parse_nmea/_read_bytes/parse) and RTCMMessage over a "
+             "fault-injecting stream double whose every byte is a solver variable: all byte streams up to the length bound, framed templates with symbolic "
+             "payload/CRC/noise, a maximum-size frame with free length bytes, and short/empty reads as solver decisions. For every returned pair z3 decides the "
+             "frame grammar under the path condition; slice identity is identity of z3 terms; the CRC clause is discharged on the recorded result term of the real "
+             "calc_crc24q (tied to CRC-24Q by C08).",
+        note="Trusted: CPython, z3, stream double contract (read(n) returns <= n bytes), CRC fold summary for frames > 6 bytes (over-approximation, justified by C08 F1-F3); "
+             "message numbers per frame restricted to representatives; bounds in evidence.",
+        ref="DESIGN.md section 5 C01", technique=TECH),
+    "C06": dict(
+        text="Bounded symbolic execution of the real constructor on truncated payloads: for every structure of every defined identity and every cut length inside "
+             "the bound, ALL bits of the truncated payload are symbolic and every feasible path must raise; in free mode (counters symbolic) every success path is "
+             "checked against the independent layout walker: the fields announced by the counters of that path must fit into the payload.",
+        note="Trusted: CPython, z3, proxies (negative shift counts raise ValueError exactly as CPython), definition tables as layout reference.",
+        ref="DESIGN.md section 5 C06", technique=TECH),
+    "C15": dict(
+        text="Bounded symbolic execution of the real constructor with the message number free: the solver enumerates all 4096 numbers and all 256 sub-types of 4076 "
+             "(every other payload bit symbolic) and on each path the identity string, stub attributes, payload, serialize() framing and MSM predicate are checked "
+             "against the 12-bit / 8-bit extraction and the pinned MSM number set.",
+        note="Trusted: CPython, z3, pinned MSM number set (spec/msm.json); payload lengths 3-5 (quick).",
+        ref="DESIGN.md section 5 C15", technique=TECH),
 }
 
 NA_REASON = "check under construction in this build round (see DESIGN.md); will be claimed once its harness lands"
